@@ -166,7 +166,19 @@ fn gen_f(rng: &mut Rng, pkt: u128, ws: u128) -> u128 {
     let (al, ss) = if pkt >= 64 { (8u128, 8u128) } else { (1, 1) };
     let t = pkt - pkt % al;
     let fmax = (56403u128 * 255 * t).min(942574504275);
-    match rng.below(6) {
+    match rng.below(8) {
+        // just below / at / above a power of two, within one symbol of it (integer-width boundaries of the
+        // ceilings Kt = ceil(F/T), Z, ceil(Kt/Z))
+        6 => {
+            let p = 1u128 << rng.range(8, 39);
+            let d = rng.below(t.max(2) as u64) as u128;
+            (if rng.chance(1, 2) { p.saturating_sub(d) } else { p + d }).clamp(1, fmax)
+        }
+        // a multiple of T just below / at a power of two symbols
+        7 => {
+            let p = (1u128 << rng.range(4, 32)) * t;
+            (p + rng.below(3) as u128).saturating_sub(1 + rng.below(2) as u128).clamp(1, fmax)
+        }
         0 => rng.range(1, 5000) as u128,
         1 => {
             // adjacent to a block-count step: F = z * KL(nmax) * T +- small
@@ -292,7 +304,8 @@ pub fn run(ctx: &Ctx) -> i32 {
                 check_one(ctx, "with_defaults", F, pkt, 10 * 1024 * 1024, &st);
             }
             if k % 50 == 0 {
-                let f_small = rng.range(1, 20000) as u128;
+                // (the checked build's solver re-verifies itself in O(L^3): objects of at most 300 symbols there)
+                let f_small = if cfg!(debug_assertions) { rng.range(1, 300 * (pkt as u64).min(64)) as u128 } else { rng.range(1, 20000) as u128 };
                 check_one(ctx, "builder", f_small, pkt, ws, &st);
             }
             // monotonicity: a larger budget never yields more blocks
@@ -332,8 +345,8 @@ pub fn run(ctx: &Ctx) -> i32 {
             1 => t * rng.range(10, 3000) / rng.range(1, 8),
             _ => rng.log_range(t * 10, 1 << 40),
         };
-        // keep Kt per block modest so the case stays cheap
-        if (F as u64).div_ceil(t) > 60_000 {
+        // keep Kt per block modest so the case stays cheap (checked build: its solver is cubic)
+        if (F as u64).div_ceil(t) > if cfg!(debug_assertions) { 250 } else { 60_000 } {
             return;
         }
         roundtrip(ctx, F, pkt, ws, rng.next(), &st);
@@ -346,7 +359,7 @@ pub fn run(ctx: &Ctx) -> i32 {
     ctx.floor("in_domain_where_KL(1)_is_undefined", st.kl1_undefined.load(Relaxed), 200);
     ctx.floor("in_domain_with_budget_quotient_at_least_2^32", st.huge_ws.load(Relaxed), 200);
     ctx.floor("monotonicity_pairs", st.mono_pairs.load(Relaxed), 1000);
-    ctx.floor("round_trips_on_real_data", st.roundtrips.load(Relaxed), 50);
+    ctx.floor("round_trips_on_real_data", st.roundtrips.load(Relaxed), if cfg!(debug_assertions) { 10 } else { 50 });
     ctx.finish(
         "inputs (F, packet size, memory budget) through hook verif_generate_encoding_parameters (any F x any budget), public with_defaults (10 MiB) and EncoderBuilder (real data); derived (T,Z,N,Al) must equal RFC 4.3 computed in u128 whenever that derivation yields a valid configuration; Z must not grow with the budget; builder->serialise->decoder round trip on real data with loss. non-trivial = in-domain input whose RFC result has Z>1 or N>1; distinct by (F,P,WS)",
         &["(Al,SS) = (8,8) if packet size >= 64 else (1,1): the crate's documented convention, treated as an input", "inputs for which RFC 4.3 yields no valid configuration (KL(N_max) undefined, Z>255, F>942574504275) are skipped and counted", "Table 2 K' values from the golden copy"],
